@@ -154,7 +154,7 @@ class Outcome:
 
 def verus_property(pid, prop, tier, seed, out, work):
     """the Verus part of a property.  Fills `out`.  Returns the generated text (for the scan)."""
-    ex = extract.Extraction(REPO)
+    ex = extract.Extraction(REPO, prop=pid)
     lib = extract.Library()
     roots = prop.get("roots", [])
     lemmas = prop.get("lemmas", [])
